@@ -1123,6 +1123,13 @@ func (fx *fctx) intrinsic(st *State, name string, ce *ast.CallExpr) ([]*Value, b
 			return []*Value{{T: t, Tm: ts.App("json_flt", SFlt, doc, pid)}}, true
 		}
 		return []*Value{{T: t, Tm: ts.App("json_str", SStr, doc, pid)}}, true
+	case "strLine":
+		a := fx.eval(st, ce.Args[0])
+		k := fx.evalInt(st, ce.Args[1])
+		return []*Value{{T: t, Tm: ts.App("str_line", SStr, a.Tm, k)}}, true
+	case "strLineCount":
+		a := fx.eval(st, ce.Args[0])
+		return []*Value{{T: t, Tm: ts.App("str_linecount", SInt, a.Tm)}}, true
 	case "sameFloat":
 		// sameFloat(a, b): the two floats are the same value (identity, unlike Go's ==, which is false for NaN)
 		a := fx.eval(st, ce.Args[0])
